@@ -29,7 +29,9 @@ def promoted_variant(c, bf, t):
     t = peel(t)
     if not (isinstance(t, tuple) and t and t[0] == 'promoted'):
         return None
-    bl = c.prog.by_short.get('%s::promoted[%d]' % (bf.body.path, t[2])) or []
+    # the promoted constant belongs to the function the expression was written in (a helper merged into this body keeps its own)
+    bl = (isinstance(t[1], str) and (c.prog.by_short.get('%s::promoted[%d]' % (t[1], t[2])) or c.prog.by_short.get('%s::promoted[%d]' % (rules.strip_generics(t[1]), t[2])))) \
+        or c.prog.by_short.get('%s::promoted[%d]' % (bf.body.path, t[2])) or []
     for b in bl:
         for blk in b.blocks:
             for s in blk.stmts:
@@ -133,23 +135,47 @@ def run(tier):
         raise CheckError('anchor: rx2_rf_config')
     a = [peel(term_of_operand(bf, x)) for x in bcalls[0][1].args]
 
-    def override(t, field, closure_idx):
-        return is_call(t, 'unwrap_or_else') and field_path(t[2][0]) == (('param', 1), ['configuration', field]) and \
-            term_contains(t[2][1], lambda y: isinstance(y, str) and y.endswith('rx2_rf_config::{closure#%d}' % closure_idx))
-    okf = override(a[1], 'rx2_frequency', 0) and override(a[2], 'rx2_data_rate', 1) and a[3] == ('param', 2) and window_of(c, bf, a[4]) == '_2'
+    def override(t, field):
+        """(default call term, body it lives in) if t is `configuration.<field>` when that option is Some and a default otherwise:
+        opt.unwrap_or_else(|| default), or a match / if-let selecting the Some payload or the default"""
+        def is_field(o):
+            return field_path(peel(o)) == (('param', 1), ['configuration', field])
+        t = peel(t)
+        if is_call(t, 'unwrap_or_else') and is_field(t[2][0]) and isinstance(t[2][1], tuple) and t[2][1][:1] == ('closure',):
+            bl = prog.by_short.get(rules.strip_generics(t[2][1][1])) or prog.by_short.get(t[2][1][1]) or []
+            if len(bl) != 1:
+                return None
+            cbf = c.pf.bf(bl[0])
+            k = [(bb, t_) for bb, t_ in cbf.calls()]
+            if len(k) != 1 or not (k[0][1].dest.is_local() and k[0][1].dest.local == 0):
+                return None
+            return ('call', callee_name(k[0][1]), tuple(term_of_operand(cbf, x) for x in k[0][1].args), k[0][0]), cbf
+        if t[0] == 'phi':
+            dl = rules.defs_with_conditions(bf, t[1])
+            if len(dl) != 2:
+                return None
+            some = [d for d in dl if peel(d[0])[0] == 'field' and peel(d[0])[2] == '0' and peel(d[0])[1][0] == 'as' and peel(d[0])[1][2] == 'Some' and is_field(peel(d[0])[1][1])]
+            other = [d for d in dl if d not in some]
+            if len(some) != 1 or len(other) != 1:
+                return None
+            # the default is taken exactly when the option is None
+            kn = [rules.option_known(x) for x in other[0][1]]
+            if not any(k_ is not None and not k_[1] and is_field(k_[0]) for k_ in kn):
+                return None
+            return peel(other[0][0]), bf
+        return None
+    of, od = override(a[1], 'rx2_frequency'), override(a[2], 'rx2_data_rate')
+    okf = of is not None and od is not None and a[3] == ('param', 2) and window_of(c, bf, a[4]) == '_2'
     res.require(okf, 'C10:rx2_rf_config:overrides', 'RX2 is not (rx2_frequency or region default, rx2_data_rate or regional table, tx_dr, Window::_2): %s' % [term_str(x)[:80] for x in a[1:]],
                 short_site(bf, bcalls[0][0]), 'PROVENANCE(RX2 overrides)', instance='RX2 = negotiated frequency/data rate, else the region defaults')
-    c0 = c.bf(D + 'mac::Mac::rx2_rf_config::{closure#0}')
-    k0 = [(bb, t) for bb, t in c0.calls()]
-    res.require(len(k0) == 1 and callee_name(k0[0][1]).endswith('Configuration::get_rx2_frequency'), 'C10:rx2_rf_config:default-frequency', 'default RX2 frequency is not region.get_rx2_frequency()',
-                c0.body.path, 'PROVENANCE(RX2 default frequency)', instance='RX2 default frequency = region.get_rx2_frequency()')
-    c1 = c.bf(D + 'mac::Mac::rx2_rf_config::{closure#1}')
-    k1 = [(bb, t) for bb, t in c1.calls()]
-    okd = len(k1) == 1 and callee_name(k1[0][1]).endswith('Configuration::get_rx_datarate')
+    okq = of is not None and is_call(of[0], 'Configuration::get_rx2_frequency')
+    res.require(okq, 'C10:rx2_rf_config:default-frequency', 'default RX2 frequency is not region.get_rx2_frequency()',
+                (of[1] if of else bf).body.path, 'PROVENANCE(RX2 default frequency)', instance='RX2 default frequency = region.get_rx2_frequency()')
+    okd = od is not None and is_call(od[0], 'Configuration::get_rx_datarate')
     if okd:
-        a = [peel(term_of_operand(c1, x)) for x in k1[0][1].args]
-        okd = window_of(c, c1, a[3]) == '_2' and term_contains(a[2], lambda y: y == 'rx1_dr_offset')
-    res.require(okd, 'C10:rx2_rf_config:default-datarate', 'default RX2 data rate is not region.get_rx_datarate(tx_dr, rx1_dr_offset, Window::_2)', c1.body.path,
+        a = [peel(x) for x in od[0][2]]
+        okd = window_of(c, od[1], a[3]) == '_2' and term_contains(a[2], lambda y: y == 'rx1_dr_offset')
+    res.require(okd, 'C10:rx2_rf_config:default-datarate', 'default RX2 data rate is not region.get_rx_datarate(tx_dr, rx1_dr_offset, Window::_2)', (od[1] if od else bf).body.path,
                 'PROVENANCE(RX2 default data rate)', instance='RX2 default data rate = region table(tx_dr, rx1_dr_offset, Window::_2)')
     # build_rf_config: frequency passes through, modulation from a defined data rate
     bf = c.bf(D + 'mac::Mac::build_rf_config')
@@ -313,10 +339,14 @@ def run(tier):
         cn = callee_name(t)
         if cn.endswith('Device::between_windows'):
             d = peel(term_of_operand(bf, t.args[1]))
-            okd = d[0] == 'Sub' and is_call(d[2], 'get_rx_window_lead_time_ms') and d[1][0] == 'Add' and is_call(d[1][1], 'Mac::get_rx_delay')
-            w = window_of(c, bf, d[1][1][2][2]) if okd else None
-            wd = peel(d[1][2]) if okd else None
-            order.append(('wait', w, okd and wd[0] == 'field' and wd[2] in ('2', 'window_delay')))
+            # get_rx_delay(frame, window) + window_delay - lead time, in any order of the summands
+            lin, k0 = rules.linear(d)
+            dl_ = [x for x, co in lin.items() if co == 1 and is_call(peel(x), 'Mac::get_rx_delay')]
+            wd_ = [x for x, co in lin.items() if co == 1 and peel(x)[0] == 'field' and peel(x)[2] in ('2', 'window_delay')]
+            ld_ = [x for x, co in lin.items() if co == -1 and is_call(peel(x), 'get_rx_window_lead_time_ms')]
+            okd = k0 == 0 and len(lin) == 3 and len(dl_) == 1 and len(wd_) == 1 and len(ld_) == 1
+            w = window_of(c, bf, peel(dl_[0])[2][2]) if okd else None
+            order.append(('wait', w, okd))
         elif cn.endswith('RxWindows::rx_config'):
             order.append(('config', window_of(c, bf, term_of_operand(bf, t.args[2])), has_call(term_of_operand(bf, t.args[1]), 'get_rx_window_buffer')))
         elif cn.endswith('Mac::rx2_complete'):
@@ -382,11 +412,11 @@ def run(tier):
     res.require(wins == ['_1', '_2'], 'C10:nb::WaitingForRx:second-window', 'the second nb window is not scheduled from get_rx_delay(_2) - get_rx_delay(_1): %s' % wins, bf.body.path,
                 'SHAPE(t2 = t1 + delay2 - delay1)', instance='nb: second window after delay(_2) - delay(_1)')
     # ------------------------------------------------------------------ (d) who consults the tables; Class C
-    for suffix, allowed in (('Configuration::get_rx_datarate', {'mac::Mac::rx_windows', 'mac::Mac::build_rf_config', 'mac::Mac::rx2_rf_config::{closure#1}'}),
-                            ('Configuration::get_rx2_frequency', {'mac::Mac::rx2_rf_config::{closure#0}'}),
+    for suffix, allowed in (('Configuration::get_rx_datarate', {'mac::Mac::rx_windows', 'mac::Mac::build_rf_config', 'mac::Mac::rx2_rf_config'}),
+                            ('Configuration::get_rx2_frequency', {'mac::Mac::rx2_rf_config'}),
                             ('Mac::build_rf_config', {'mac::Mac::rx_windows', 'mac::Mac::rx2_rf_config'}),
                             ('Mac::rx2_rf_config', {'mac::Mac::rx_windows', 'mac::Mac::get_rxc_config'})):
-        callers = {bf.body.path.replace(D, '') for bf, bb, t in c.pf.callers_of(suffix, crates={'lorawan_device'})}
+        callers = {re.sub(r'(::\{closure#\d+\})+$', '', bf.body.path.replace(D, '')) for bf, bb, t in c.pf.callers_of(suffix, crates={'lorawan_device'})}
         if not callers:
             raise CheckError('anchor: nobody calls %s' % suffix)
         res.require(callers <= allowed, 'C10:who-calls:%s' % suffix.split('::')[-1], '%s is also called from %s' % (suffix, sorted(callers - allowed)), suffix, 'WHO-CALLS(%s)' % suffix.split('::')[-1],
